@@ -353,10 +353,10 @@ at a keyword boundary: whatever text follows, the keyword loop consumes it as wh
 Such prefixes compose (`atBoundary_append`) and may be interleaved with blank and comment
 lines (`atBoundary_blank`). -/
 theorem written_prefix_at_boundary (cv : Conv) (tbl : Table) (recog : Bytes → Bool)
-    (files : List (Bytes × Bytes) → Bytes → Option Bytes) (fmt : Bytes → Bytes) (flush : Bool)
-    (al : List (Bytes × Bytes)) (deck : DeckT) (ks : List DK) (h : Conforms cv fmt flush tbl recog deck ks) :
-    AtBoundary cv tbl recog files ks.length al deck (deckText fmt flush ks) al (deck ++ ks.map (DK.result fmt)) :=
-  atBoundary_written cv tbl recog files fmt flush al deck ks h
+    (files : List (Bytes × Bytes) → Bytes → Option Bytes) (fmt : Bytes → Bytes) (fl : List Vals → Bool)
+    (al : List (Bytes × Bytes)) (deck : DeckT) (ks : List DK) (h : Conforms cv fmt fl tbl recog deck ks) :
+    AtBoundary cv tbl recog files ks.length al deck (deckText fmt fl ks) al (deck ++ ks.map (DK.result fmt)) :=
+  atBoundary_written cv tbl recog files fmt fl al deck ks h
 
 /-- **`include_splice` as a whole-text statement**: behind ANY prefix text that ends at a
 keyword boundary and in front of ANY text, `INCLUDE` / `'path' /` is the cleaned lines of the
@@ -420,7 +420,7 @@ theorem relayout_deck_partial (cv : Conv) (tbl : Table) (recog : Bytes → Bool)
 
 def oilKw : DK := .kw ⟨b "OIL", false, false, []⟩
 
-private theorem oil_conforms (deck : DeckT) : Conforms demoConv idFmt true demoTable (fun _ => false) deck [oilKw] := by
+private theorem oil_conforms (deck : DeckT) : Conforms demoConv idFmt (flushOf 2) demoTable (fun _ => false) deck [oilKw] := by
   refine ⟨?_, trivial⟩
   refine ⟨⟨⟨.fixed 0, false, none, [], false, false⟩, _, ?_, rfl, rfl, rfl, Or.inl ⟨rfl, rfl, rfl⟩, ?_⟩⟩
   · exact ⟨by decide +kernel, by decide +kernel, by decide +kernel, by decide +kernel, by decide +kernel,
@@ -429,7 +429,7 @@ private theorem oil_conforms (deck : DeckT) : Conforms demoConv idFmt true demoT
   · intro j r hj
     simp [oilKw] at hj
 
-example : deckText idFmt true [oilKw] = b "OIL\n" := by decide +kernel
+example : deckText idFmt (flushOf 2) [oilKw] = b "OIL\n" := by decide +kernel
 
 def incFiles (_ : List (Bytes × Bytes)) (p : Bytes) : Option Bytes := if p = b "/d/oil.inc" then some (b "OIL") else none
 
@@ -439,14 +439,14 @@ case and trailing text (`kwname`), a comment (`line`) — composed by `trans`. -
 example : RelayoutDeck demoConv demoTable (fun _ => false) incFiles
     (b "OIL\nOIL\nOIL\n") (b "OIL -- first\n  \t\noil  again\nINCLUDE\n '/d/oil.inc' /\n") := by
   have hB1 : AtBoundary demoConv demoTable (fun _ => false) incFiles 1 [] [] (b "OIL\n") [] [⟨b "OIL", []⟩] := by
-    have := atBoundary_written demoConv demoTable (fun _ => false) incFiles idFmt true [] [] [oilKw] (oil_conforms [])
-    have e : deckText idFmt true [oilKw] = b "OIL\n" := by decide +kernel
+    have := atBoundary_written demoConv demoTable (fun _ => false) incFiles idFmt (flushOf 2) [] [] [oilKw] (oil_conforms [])
+    have e : deckText idFmt (flushOf 2) [oilKw] = b "OIL\n" := by decide +kernel
     rw [e] at this
     exact this
   have hB2 : AtBoundary demoConv demoTable (fun _ => false) incFiles 1 [] [⟨b "OIL", []⟩] (b "OIL\n") []
       [⟨b "OIL", []⟩, ⟨b "OIL", []⟩] := by
-    have := atBoundary_written demoConv demoTable (fun _ => false) incFiles idFmt true [] [⟨b "OIL", []⟩] [oilKw] (oil_conforms _)
-    have e : deckText idFmt true [oilKw] = b "OIL\n" := by decide +kernel
+    have := atBoundary_written demoConv demoTable (fun _ => false) incFiles idFmt (flushOf 2) [] [⟨b "OIL", []⟩] [oilKw] (oil_conforms _)
+    have e : deckText idFmt (flushOf 2) [oilKw] = b "OIL\n" := by decide +kernel
     rw [e] at this
     exact this
   have hB12 : AtBoundary demoConv demoTable (fun _ => false) incFiles (1 + 1) [] [] (b "OIL\n" ++ b "OIL\n") []
@@ -459,9 +459,9 @@ example : RelayoutDeck demoConv demoTable (fun _ => false) incFiles
   -- the lines of the file are the lines of a written keyword
   have hfile : AtBoundaryL demoConv demoTable (fun _ => false) incFiles 1 [] [⟨b "OIL", []⟩, ⟨b "OIL", []⟩]
       (linesOf (b "OIL" ++ [10])) [] ([⟨b "OIL", []⟩, ⟨b "OIL", []⟩] ++ [oilKw].map (DK.result idFmt)) := by
-    have := atBoundaryL_written demoConv demoTable (fun _ => false) incFiles idFmt true [] [⟨b "OIL", []⟩, ⟨b "OIL", []⟩]
+    have := atBoundaryL_written demoConv demoTable (fun _ => false) incFiles idFmt (flushOf 2) [] [⟨b "OIL", []⟩, ⟨b "OIL", []⟩]
       [oilKw] (oil_conforms _)
-    have e : deckLines idFmt true [oilKw] = linesOf (b "OIL" ++ [10]) := by decide +kernel
+    have e : deckLines idFmt (flushOf 2) [oilKw] = linesOf (b "OIL" ++ [10]) := by decide +kernel
     rw [e] at this
     exact this
   have hpath := lineSafe_of_B (t := quoted (b "/d/oil.inc")) (by decide +kernel)
@@ -515,8 +515,8 @@ the slash, or written out with commas and a tab and the slash right behind the l
 example : RelayoutDeck demoConv demoTable (fun _ => false) incFiles
     (b "OIL\nDIMENS\n 2*10 3 / text\nOIL\n") (b "OIL\nDIMENS\n 10,10\t3/\nOIL\n") := by
   have hB1 : AtBoundary demoConv demoTable (fun _ => false) incFiles 1 [] [] (b "OIL\n") [] [⟨b "OIL", []⟩] := by
-    have := atBoundary_written demoConv demoTable (fun _ => false) incFiles idFmt true [] [] [oilKw] (oil_conforms [])
-    have e : deckText idFmt true [oilKw] = b "OIL\n" := by decide +kernel
+    have := atBoundary_written demoConv demoTable (fun _ => false) incFiles idFmt (flushOf 2) [] [] [oilKw] (oil_conforms [])
+    have e : deckText idFmt (flushOf 2) [oilKw] = b "OIL\n" := by decide +kernel
     rw [e] at this
     exact this
   let k0 : Kw := { sizeType := .fixed, raw := false, records := [], minSize := 1, fixedSize := 1,
